@@ -269,6 +269,21 @@ theorem C47_clear_fresh (ops : List Op) (cls : Cls) :
     rw [e, h.emptyBeyond _ (Nat.le_refl _)] at h1
     simp [dget] at h1
 
+/-- **An instance is registered in one namespace and under one name only** — the dict that was
+current for its class when it was created — in every reachable state: if the same instance is
+found in two registry entries, they are the same entry. -/
+theorem C47_one_namespace_per_instance (ops : List Op) (d d' : Nat) (n n' : Str) (v : Nat)
+    (h1 : dget ((run init ops).heap d) n = some v) (h2 : dget ((run init ops).heap d') n' = some v) :
+    d = d' ∧ n = n' := by
+  have hw := wf_run wf_init ops
+  have hi : IdsOk (run init ops) := idsOk_run (by simp [IdsOk, init]) ops
+  obtain ⟨c, hc⟩ := hw.entryInst d n v h1
+  obtain ⟨c', hc'⟩ := hw.entryInst d' n' v h2
+  have : (⟨v, c, n, d⟩ : Inst) = ⟨v, c', n', d'⟩ := by
+    exact eq_of_nodup_map_id hi.1 hc hc' rfl
+  simp only [Inst.mk.injEq, true_and] at this
+  exact ⟨this.2.2, this.2.1⟩
+
 /-! ## non-vacuity -/
 
 def t (s : String) : Str := s.toList
@@ -307,3 +322,4 @@ end Ioflo.Registry
 #print axioms Ioflo.Registry.C47_registered_stays
 #print axioms Ioflo.Registry.C47_namespace_isolation
 #print axioms Ioflo.Registry.C47_clear_fresh
+#print axioms Ioflo.Registry.C47_one_namespace_per_instance
